@@ -903,9 +903,12 @@ class C12(RunSpec):
         p["leaf"] = _cycle(GEN_POP + CMA_ENGINES, idx, 1)
         p["levels"] = [2, 1, 2]
         p["maximize"] = bool((idx // 8) % 2)  # independent of the root cycle (period 8) and the leaf cycle (period 11)
-        p["fams"] = ["plateau", "constant", "rastrigin", "sphere", "plateau", "funnel"]
+        p["fams"] = ["plateau", "constant", "rastrigin", "sphere", "plateau", "funnel", "tinyval", "offset"]
         p["gscs"] = ["melimit", "evals"]
         p["lscs"] = ["dontstop", "melimit"]
+        if idx % 10 == 4:
+            p["fam"] = "tinyval"
+            p["root"] = _cycle(SEA_FAMILY, idx // 10)
         return p
 
     def make_case(self, seed, idx, tier):
@@ -919,7 +922,7 @@ class C12(RunSpec):
         return d
 
     def floors(self, tier):
-        fl = []
+        fl = [("objective.tinyval", 5, "objective with values of the order 1e-12")]
         for e in SEA_FAMILY + ["de", "de_dither", "shade"]:
             for dr in ("min", "max"):
                 fl.append((f"C12.pairs.{e}.{dr}", 100 if tier == "thorough" else 20, "generation pairs per elitist engine and direction"))
@@ -951,10 +954,16 @@ class C18(RunSpec):
         p["gscs"] = ["melimit", "melimit", "evals", "fevals"]
         p["level_limit"] = rng.randint(1, 3)
         p["lscs"] = ["melimit", "user", "dontstop", "melimit"]
+        if idx % 10 == 2:
+            # local-method generator with hibernation: active demes of the last-but-one level are never offered while they run
+            p.update({"n_levels": 3, "leaf": "local", "sprout": "custom", "hibernation": True, "inner": _cycle(["cma", "sea", "de"], idx // 10), "gscs": ["melimit"]})
         return p
 
     def make_case(self, seed, idx, tier):
         d = super().make_case(seed, idx, tier)
+        if idx % 10 == 2 and len(d["levels"]) == 3 and d["levels"][-1]["engine"].startswith("local") and not d.get("reuse") and not d.get("soak"):
+            d["sprout"] = {"k": "custom", "gen": {"k": "nbclocal", "df": 2.0, "trunc": 1.0}, "dfilters": [{"k": "demelimit", "n": 2}], "tfilters": [{"k": "levellimit", "n": 3}], "ll": 3}
+            d["levels"][1]["lsc"] = {"k": "melimit", "n": 3}
         if d["gsc"]["k"] == "melimit":
             d["gsc"]["n"] = max(d["gsc"]["n"], 8)
         if idx % 10 == 6 and len(d["levels"]) == 3 and not d.get("reuse") and not d.get("soak"):
@@ -1151,6 +1160,7 @@ class C16(DirectSpec):
     def floors(self, tier):
         fl = [(f"pair.inner={a}.outer={b}", 1, "ordered pair of wrapper kinds") for a in ("count", "cutoff", "prec", "stats") for b in ("count", "cutoff", "prec", "stats")]
         n = self.sizes[tier]
+        fl += [("late_wrapped_stacks", 20, "outermost wrapper constructed around an already used stack")]
         fl += [("C16.real_stack_checks", 20, "wrapper stacks of real runs checked"), ("C16.real_stack_checks_with_saturated_cutoff", 1, "real stack with a saturated cutoff")]
         fl += [("sequences_with_calls_past_cutoff", n // 10, "calls past the cutoff in >=10% of sequences"), ("sequences_with_repeated_precision_hits", n // 10, "repeated precision hits in >=10% of sequences")]
         return fl
@@ -1219,7 +1229,8 @@ class C14(DirectSpec):
 
     def floors(self, tier):
         fl = [(f"engine.{e}", 1, "engine present") for e in gen.ROOT_ENGINES + gen.CMA_ENGINES + gen.LEAF_ONLY]
-        fl += [("two_seed_consuming_demes_sprouted_onto_one_level_in_one_metaepoch", 2, "two CMA-ES / LHS / Sobol demes sprouted onto one level in one metaepoch"),
+        fl += [("same_config_objects_run_twice", 10, "the same configuration objects run twice in one process"),
+               ("two_seed_consuming_demes_sprouted_onto_one_level_in_one_metaepoch", 2, "two CMA-ES / LHS / Sobol demes sprouted onto one level in one metaepoch"),
                ("descriptors_with_3_levels", 1, "descriptor with 3 levels"), ("cross_process_twins", 10, "fresh-interpreter twins"), ("descriptors_with_2_demes", 10, "descriptors that produced >=2 demes")]
         return fl
 
